@@ -118,3 +118,29 @@ CLAIMS["C17"] = dict(
     text="For trees with menus whose conditions mention outside options, menuconfig options with children, implicit sub-menus, a named choice defined twice, empty menus, comments, options locked by select and by set, ranges with symbol bounds that can be empty: every action history up to depth 4/5 plus every value of the malformed int/hex/float lists typed as the last action from every expanded state. After every action: no exception; 0 <= sel_node_i < len(shown) and shown == shown_nodes(cur_menu); the list widget rows equal the model rows; leave_menu lands on the left menu's row; a toggle applies only a member of the pre-action assignable set; options forced by set or locked to y keep their value; a value the validator accepts is the value the option then denotes.",
     note="Trees whose visible-if / depends mention an option inside the same menu are rejected by the parser as dependency loops and counted as skipped.",
 )
+
+# what the three waves of independently seeded changes added (DESIGN.md §3 "Added after the seeded waves", §9)
+ADDED = {
+    "C01": "live walk -- every configuration also reached by single changes on ONE instance in reflected Gray order (forwards and backwards) and compared with the fresh instance; choice family (selection precedence with hidden default members).",
+    "C02": "live-instance variant (history replayed with a complete read before and after every operation; what it writes must round-trip too); symbolic range bounds; CR / separator characters in strings.",
+    "C03": "oracle 'reads are pure' (same history without its reads gives the same observation); merge loads of tool-written files; targets with nothing but a dependency; prompt on the second definition.",
+    "C04": "families source_twice / source_nested / after_help / strlit (string literals from quotes, escapes, macro and environment references in 24 positions); every parse under a CPU-time limit (non-termination is an observation).",
+    "C05": "second search on ONE live instance evaluated after every operation (states merged on user state + memo-cell contents) under several read kinds; choices hidden by a choice-level or enclosing condition; `if` inside a choice.",
+    "C06": "upper bounds given by options (also value-less), option defined twice with a range per definition, range taken from the program text, live steps on an already evaluated instance.",
+    "C07": "every configuration generated over its neighbours' outputs at the same paths; aliases switched off (write_deprecated=False); strings spelling a tristate letter; empty rename file.",
+    "C08": "trees reversed / multidef / strname; replacing loads on one instance; converse oracle 'inferred stays inferred' against the configuration that wrote the file.",
+    "C09": "linked choices; value-less range bounds; every tree also loaded under KCONFIG_WARN_UNDEF / KCONFIG_STRICT with an undefined reference (same verdict demanded).",
+    "C10": "each minimal config written over the previous one; string values that read like sdkconfig entries.",
+    "C11": "trees whose expressions mention the old names; prefix text inside names; rename files listed in and against path order / twice; composed sdkconfig files (text after the deprecated block, two blocks, unclosed block).",
+    "C12": "sessions of several sync_deps() by one instance over kept / emptied / removed / new directories; duplicated and re-targeted rename lines; tristate-looking string values.",
+    "C13": "separator characters; histories of 2-3 changed saves with every crash point inside each; destination name shapes and sibling configurations; unchanged-output clause across kconfgen processes with different PYTHONHASHSEED.",
+    "C14": "symbolic ranges, choice trees, one prompt-hidden option per value type; combined requests; 'fresh server on the file this request saved' and 'after a load == fresh server on the loaded content' oracles.",
+    "C15": "strictly encoding byte-level stdout (utf-8 / ascii); unicode matrix incl. lone surrogates in every echoed position; numeric values beyond the representable range; console-markup strings; strict JSON replies.",
+    "C16": "load files differing only in a choice selection; falsy-looking values of every type.",
+    "C17": "conditional range before the fallback range with typed values in the gap.",
+    "C18": "names at the documented length limits; odd characters inside texts; manglings of lines with a tab inside a quoted string; one-over-the-limit files as informational controls.",
+    "C19": "chain / deep / SPELL (IDF_PATH spellings incl. symlinks) / TWIN (equally named project directories) layout families.",
+    "C20": "rendered conditions read back with eval_string; mirror symbols; target-gated choice members referenced outside conditions; the generator's special menu names as menu title and as option prompt.",
+}
+for _k, _v in ADDED.items():
+    CLAIMS[_k]["text"] += " Widened after three waves of independently seeded changes: " + _v
